@@ -157,4 +157,29 @@ theorem hash_pure (lb lb' : LB) (h : lb.size = lb'.size) (addr : List UInt8) :
 theorem rr_in_range (lb : LB) (hn : 0 < lb.size) : ∃ i lb', lb.rrNext = some (i, lb') ∧ i < lb.size ∧
     lb'.counts = lb.counts ∧ lb'.nextIndex = lb.nextIndex + 1 :=
   ⟨_, _, rrNext_eq lb hn, Nat.mod_lt _ hn, rfl, rfl⟩
+/-- the balancer after a connection has been opened on loop `i` (`eventloop.register`: `addConn(1)`) -/
+def opened (lb : LB) (i : Nat) : LB := { lb with counts := lb.counts.set i (lb.counts.getD i 0 + 1) }
+
+/-- the connection counts of any two loops differ by at most one -/
+def Balanced (lb : LB) : Prop :=
+  ∀ j k, j < lb.size → k < lb.size → lb.counts.getD j 0 ≤ lb.counts.getD k 0 + 1
+
+theorem getD_set (l : List Int) (i j : Nat) (v : Int) (hi : i < l.length) :
+    (l.set i v).getD j 0 = if i = j then v else l.getD j 0 := by
+  simp only [List.getD_eq_getElem?_getD, List.getElem?_set]
+  split <;> simp [*]
+
+theorem lc_keeps_balanced (lb : LB) (hn : 0 < lb.size) (hb : Balanced lb) :
+    ∃ i, lb.lcNext = some i ∧ Balanced (opened lb i) := by
+  obtain ⟨i, hi, hlt, hmin, _⟩ := lc_minimal lb hn
+  refine ⟨i, hi, ?_⟩
+  intro j k hj hk
+  simp only [opened, LB.size, List.length_set] at hj hk ⊢
+  have hj' := hmin j hj
+  have hk' := hmin k hk
+  have hjk := hb j k hj hk
+  have hki := hb k i hk hlt
+  have hji := hb j i hj hlt
+  rw [getD_set _ _ _ _ hlt, getD_set _ _ _ _ hlt]
+  split <;> split <;> subst_vars <;> omega
 end Gnet.Proofs.LB
